@@ -675,7 +675,9 @@ def translate_file(path, extra=(), only_file=None):
         for f, n in fns:
             tr = FnTranslator(u, n, sizes, enums, globals_)
             try:
-                out.append(tr.translate())
+                d_ = tr.translate()
+                d_["from_header"] = "/include/" in (f or "")
+                out.append(d_)
             except NeedProbe:
                 need = True
             except Unsupported as ex:
@@ -720,7 +722,7 @@ def emit(results, byteorder):
     """results: list of (relpath, fns, opaque, tables); byteorder: {"little": (fns, opaque), "big": ...}"""
     src = [LEAN_HEADER]
     names = []
-    seen = set()
+    seen = {}
     opaque_all = []
     for br in ("little", "big"):
         fns, opq = byteorder[br]
@@ -748,8 +750,12 @@ def emit(results, byteorder):
         here = []
         for f in fns:
             if f["name"] in seen:
-                continue        # static inline helpers of a header seen through several units
-            seen.add(f["name"])
+                if f.get("from_header") and seen[f["name"]]:
+                    continue        # static inline helpers of a header seen through several units
+                # two definitions with one name in different .c files (static functions): the flat program
+                # namespace of CSem cannot represent them; nothing is serialised rather than one of them dropped
+                raise RuntimeError("two functions are named %s (file-local functions in different sources)" % f["name"])
+            seen[f["name"]] = bool(f.get("from_header"))
             nm = lean_ident(f["name"])
             src.append("/- slots: %s -/" % ", ".join("%d=%s:%s" % (i, a, b) for i, (a, b) in enumerate(f["slots"])))
             for i, (cond, body) in enumerate(f["loops"]):
